@@ -11,6 +11,7 @@ import (
 	"fmt"
 	"go/constant"
 	"go/token"
+	"go/types"
 	"strings"
 
 	"golang.org/x/tools/go/ssa"
@@ -325,4 +326,223 @@ func sameDestination(from *ssa.BasicBlock, a, b *ssa.BasicBlock) bool {
 		}
 	}
 	return true
+}
+
+// C08/repeat-is-modelled: `repeat` in front of a field means the same whatever the field's type is written as - a scalar, a packet, a
+// MetaData entry. Every routine of the model visitor that holds a node of a grammar context with a REPEAT child and hands back a
+// field built for that node makes the field's IsRepeat depend on that node's REPEAT(): some store into IsRepeat of the returned
+// object takes a value derived from REPEAT(), or sits under a test of it. A return path that builds the field without it (an early
+// return for "the type is a MetaData entry") models `repeat ClOrdID,` as a single value. A return that hands the node on to another
+// routine leaves the obligation with that routine.
+func c08RepeatIsModelled(w *World, r *Report, ctxs map[string]*CtxInfo) {
+	const rule = "C08/repeat-is-modelled"
+	n := 0
+	objBase := func(v ssa.Value) ssa.Value {
+		for i := 0; i < 16; i++ {
+			switch x := v.(type) {
+			case *ssa.TypeAssert:
+				v = x.X
+			case *ssa.MakeInterface:
+				v = x.X
+			case *ssa.ChangeInterface:
+				v = x.X
+			case *ssa.ChangeType:
+				v = x.X
+			case *ssa.Extract:
+				if ta, ok := x.Tuple.(*ssa.TypeAssert); ok {
+					v = ta.X
+				} else {
+					return v
+				}
+			default:
+				return v
+			}
+		}
+		return v
+	}
+	for _, fn := range parsePhaseFuncs(w) {
+		if fn.Pkg != w.Parser || recvNamedCore(fn) != "PacketDslVisitorImpl" {
+			continue
+		}
+		// the nodes with a REPEAT child this routine holds: parameters and the bindings of a type switch
+		type node struct {
+			v     ssa.Value
+			ctx   string
+			scope *ssa.BasicBlock // the block from which the node is known (entry for a parameter, the ok arm for a binding)
+			edge  *ssa.BasicBlock // for a binding: the branch block whose ok edge opens the scope
+		}
+		var nodes []node
+		hasRepeat := func(t types.Type) string {
+			cn := grammarCtxName(t)
+			if ci := ctxs[cn]; ci != nil {
+				if _, ok := ci.Children["REPEAT"]; ok {
+					return cn
+				}
+			}
+			return ""
+		}
+		for _, p := range fn.Params {
+			if cn := hasRepeat(p.Type()); cn != "" {
+				nodes = append(nodes, node{p, cn, fn.Blocks[0], nil})
+			}
+		}
+		forEachInstr(fn, func(b *ssa.BasicBlock, ins ssa.Instruction) {
+			ta, ok := ins.(*ssa.TypeAssert)
+			if !ok || ta.Referrers() == nil {
+				return
+			}
+			cn := hasRepeat(ta.AssertedType)
+			if cn == "" {
+				return
+			}
+			if !ta.CommaOk {
+				nodes = append(nodes, node{ta, cn, b, nil})
+				return
+			}
+			var val, okv *ssa.Extract
+			for _, ref := range *ta.Referrers() {
+				if ex, ok := ref.(*ssa.Extract); ok {
+					if ex.Index == 0 {
+						val = ex
+					} else {
+						okv = ex
+					}
+				}
+			}
+			if val == nil || okv == nil || okv.Referrers() == nil {
+				return
+			}
+			for _, ref := range *okv.Referrers() {
+				if iff, ok := ref.(*ssa.If); ok {
+					nodes = append(nodes, node{val, cn, iff.Block().Succs[0], iff.Block()})
+				}
+			}
+		})
+		cnt := 0
+		for _, nd := range nodes {
+			// REPEAT() read from this node
+			var reads []ssa.Value
+			forEachInstr(fn, func(_ *ssa.BasicBlock, ins ssa.Instruction) {
+				c, ok := ins.(*ssa.Call)
+				if !ok {
+					return
+				}
+				if recv, ai, ok := w.accessorOf(c, ctxs); ok && ai.Known && ai.What == "REPEAT" && (sameValue(recv, nd.v) || sameCellValue(recv, nd.v)) {
+					reads = append(reads, c)
+				}
+			})
+			derives := func(v ssa.Value, at *ssa.BasicBlock) bool {
+				// the value is made from a REPEAT() read, or the store sits under a test of one
+				seen := map[ssa.Value]bool{}
+				var walk func(x ssa.Value, d int) bool
+				walk = func(x ssa.Value, d int) bool {
+					if x == nil || d > 8 || seen[x] {
+						return false
+					}
+					seen[x] = true
+					for _, rd := range reads {
+						if x == rd {
+							return true
+						}
+					}
+					if in, ok := x.(ssa.Instruction); ok {
+						for _, op := range in.Operands(nil) {
+							if *op != nil && walk(*op, d+1) {
+								return true
+							}
+						}
+					}
+					return false
+				}
+				if walk(v, 0) {
+					return true
+				}
+				for _, bb := range fn.Blocks {
+					cond := branchCond(bb)
+					if cond == nil {
+						continue
+					}
+					if tv, _, ok := nilTest(cond); ok {
+						for _, rd := range reads {
+							if stripIdentity(tv) == rd && (edgeDominates(bb, 0, at) || edgeDominates(bb, 1, at)) {
+								return true
+							}
+						}
+					}
+				}
+				return false
+			}
+			for _, b := range fn.Blocks {
+				ret, ok := b.Instrs[len(b.Instrs)-1].(*ssa.Return)
+				if !ok || len(ret.Results) != 1 {
+					continue
+				}
+				inScope := nd.scope.Dominates(b)
+				if nd.edge != nil {
+					inScope = edgeDominates(nd.edge, 0, b)
+				}
+				if !inScope {
+					continue
+				}
+				obj := objBase(ret.Results[0])
+				if k, isConst := obj.(*ssa.Const); isConst && (k.IsNil() || k.Value != nil) {
+					continue // nothing (or an error text) is handed back
+				}
+				// handed on: the returned value is what a routine that was given the node produced
+				if c, ok := obj.(*ssa.Call); ok {
+					passes := false
+					for _, a := range c.Call.Args {
+						if sameValue(a, nd.v) || sameCellValue(a, nd.v) || objBase(a) == objBase(nd.v) {
+							passes = true
+						}
+					}
+					if passes {
+						continue
+					}
+				}
+				isField := func(t types.Type) bool { return modelTypeName(t) == "Field" }
+				if !isField(obj.Type()) {
+					if c, ok := obj.(*ssa.Call); !ok || !isStringType(c.Type()) && c.Type().String() != "interface{}" && c.Type().String() != "any" {
+						if _, isAlloc := obj.(*ssa.Alloc); !isAlloc {
+							continue
+						}
+					}
+					if al, isAlloc := obj.(*ssa.Alloc); isAlloc && !isField(al.Type()) {
+						continue
+					}
+				}
+				n++
+				cnt++
+				key := fmt.Sprintf("%s: the field handed back for a %s #%d carries its `repeat`", fnKey(fn), nd.ctx, cnt)
+				good := false
+				forEachInstr(fn, func(sb *ssa.BasicBlock, ins ssa.Instruction) {
+					st, ok := ins.(*ssa.Store)
+					if !ok {
+						return
+					}
+					fa, ok := st.Addr.(*ssa.FieldAddr)
+					if !ok {
+						return
+					}
+					if tn, fname, _, _ := fieldOf(fa); tn != "Field" || fname != "IsRepeat" {
+						return
+					}
+					if objBase(fa.X) != obj && !sameCellValue(objBase(fa.X), obj) {
+						return
+					}
+					if derives(st.Val, sb) {
+						good = true
+					}
+				})
+				if good {
+					r.pass(rule, key, w.instrPos(ret), "")
+				} else {
+					r.fail(rule, key, w.instrPos(ret), "the field returned here is built for a node that can carry `repeat`, and nothing stored into its IsRepeat depends on that node's REPEAT(): on this path `repeat X` is modelled as a single X")
+				}
+			}
+		}
+	}
+	if n == 0 {
+		r.fail(rule, "fields built for repeatable nodes found", "internal/parser/packet_dsl_parser.go", "no routine of the model visitor hands back a field for a grammar node that has a REPEAT child")
+	}
 }
